@@ -17,6 +17,9 @@ pub const NAMES: [&str; 5] = ["NoSimd", "Naive", "Ssse3", "Avx2", "NeonEmu"];
 pub struct LockstepLog {
     pub violations: Vec<String>,
     pub calls: [u64; 4],
+    /// engines differing only where the contract declares the output garbage (informational)
+    pub garbage_region_differences: u64,
+    pub ifft_with_nonzero_tail: u64,
     /// distinct (primitive, log2 size, truncated class, skew class, blocks)
     pub tuples: BTreeSet<(u8, u8, u8, u8, u8)>,
 }
@@ -113,13 +116,32 @@ impl Lockstep {
                 sclass,
                 len64.min(255) as u8,
             ));
+            // Where the contract defines the result (property C15's wording): the first truncated_size
+            // outputs of fft for any input; all outputs of ifft whenever the inputs beyond truncated_size
+            // are zero (what an ifft does with a non-zero tail is undefined, and no codec ever asks for it).
+            // Engines are compared exactly there; the rest of the range is declared garbage by the contract.
+            let t_end = pos + truncated_size.min(size);
+            let tail_zero = snapshot[t_end * len64..(pos + size) * len64]
+                .iter()
+                .all(|c| c.iter().all(|b| *b == 0));
+            let defined_end = if prim == 0 {
+                t_end
+            } else if tail_zero {
+                pos + size
+            } else {
+                l.ifft_with_nonzero_tail += 1;
+                pos
+            };
             for (n, res) in results.iter().enumerate().skip(1) {
-                if res != &results[0] {
-                    let first = res.iter().zip(results[0].iter()).position(|(a, b)| a != b).unwrap_or(0);
+                let (a, b) = (&res[pos * len64..defined_end * len64], &results[0][pos * len64..defined_end * len64]);
+                if a != b {
+                    let first = a.iter().zip(b.iter()).position(|(x, y)| x != y).unwrap_or(0);
                     l.violations.push(format!(
-                        "{name}(pos={pos}, size={size}, truncated={truncated_size}, skew_delta={skew_delta}, shards={count}, blocks={len64}): {} differs from {} first at shard {} block {}",
-                        NAMES[n], NAMES[0], first / len64.max(1), first % len64.max(1)
+                        "{name}(pos={pos}, size={size}, truncated={truncated_size}, skew_delta={skew_delta}, shards={count}, blocks={len64}): {} differs from {} first at shard {} block {} (inside the contract-defined output range {pos}..{defined_end})",
+                        NAMES[n], NAMES[0], pos + first / len64.max(1), first % len64.max(1)
                     ));
+                } else if res[defined_end * len64..(pos + size) * len64] != results[0][defined_end * len64..(pos + size) * len64] {
+                    l.garbage_region_differences += 1;
                 }
             }
             for (n, res) in results.iter().enumerate() {
